@@ -368,9 +368,15 @@ fn sample_rate_code<'a, E>(
 where
     E: ParseError<&'a [u8]>,
 {
-    debug_assert!(tag <= 0b1110);
     move |input| {
         let remaining_input = input;
+        if tag > 0b1110 {
+            // 0b1111 is invalid (reserved to prevent sync-fooling).
+            return Err(nom::Err::Error(error_position!(
+                remaining_input,
+                nom::error::ErrorKind::TagBits
+            )));
+        }
         let (remaining_input, data) = if tag == 0b1100 {
             let (r, x) = be_u8(remaining_input)?;
             (r, Some(x as usize))
@@ -456,7 +462,13 @@ where
     let (remaining_input, typetag) = bit_take(7usize)(remaining_input)?;
     let (remaining_input, wasted_flag): (_, u8) = bit_take(1usize)(remaining_input)?;
 
-    assert!(wasted_flag == 0); // not supported
+    if wasted_flag != 0 {
+        // wasted bits are not supported.
+        return Err(nom::Err::Error(error_position!(
+            remaining_input,
+            nom::error::ErrorKind::TagBits
+        )));
+    }
 
     Ok((remaining_input, (typetag, wasted_flag != 0)))
 }
@@ -522,7 +534,12 @@ where
         }
         let order = (typetag as usize) - 0x08;
         let (remaining_input, warm_up) = raw_samples(bits_per_sample, order)(remaining_input)?;
-        let warm_up = heapless::Vec::try_from(warm_up.as_slice()).expect("Unexpected error");
+        let warm_up = heapless::Vec::try_from(warm_up.as_slice()).map_err(|()| {
+            nom::Err::Error(error_position!(
+                remaining_input,
+                nom::error::ErrorKind::TooLarge
+            ))
+        })?;
 
         let (remaining_input, residual) = residual(block_size, order)(remaining_input)?;
 
@@ -561,7 +578,12 @@ where
         }
         let order = (typetag as usize) - 0x20 + 1;
         let (remaining_input, warm_up) = raw_samples(bits_per_sample, order)(remaining_input)?;
-        let warm_up = heapless::Vec::try_from(warm_up.as_slice()).expect("Unexpected error");
+        let warm_up = heapless::Vec::try_from(warm_up.as_slice()).map_err(|()| {
+            nom::Err::Error(error_position!(
+                remaining_input,
+                nom::error::ErrorKind::TooLarge
+            ))
+        })?;
 
         let (remaining_input, parameters) = quantized_parameters(order)(remaining_input)?;
         let (remaining_input, residual) = residual(block_size, order)(remaining_input)?;
@@ -598,7 +620,12 @@ where
 
         let coefs: Vec<i16> = coefs.into_iter().map(|x| x as i16).collect();
         let ret = component::QuantizedParameters::new(&coefs, order, shift, precision)
-            .expect("Unexpected error");
+            .map_err(|_e| {
+                nom::Err::Error(error_position!(
+                    remaining_input,
+                    nom::error::ErrorKind::Verify
+                ))
+            })?;
         Ok((remaining_input, ret))
     }
 }
